@@ -31,6 +31,7 @@ def main():
     os.makedirs(verif)
     shutil.copy(os.path.join(V, "known_findings.txt"), verif)
     subprocess.check_call(["rsync", "-a", "--exclude", ".git", REPO + "/", repo + "/"])
+    checker = os.path.join(scratch, "hclcheck"); shutil.copy(os.path.join(V, "bin", "hclcheck"), checker)
     env = dict(os.environ, GOFLAGS="-mod=mod", GOPROXY="off", GOWORK="off")
     bad = 0
     try:
@@ -45,7 +46,7 @@ def main():
                 b = subprocess.run(["go", "build", pkg], cwd=repo, env=env, capture_output=True, text=True)
                 if b.returncode != 0:
                     print(f"{m['id']:28} NOBUILD {b.stderr.strip().splitlines()[:2]}"); bad += 1; continue
-                r = subprocess.run([os.path.join(V, "bin", "hclcheck"), "-property", m["prop"], "-tier", "quick", "-repo", repo, "-verif", verif, "-v"],
+                r = subprocess.run([checker, "-property", m["prop"], "-tier", "quick", "-repo", repo, "-verif", verif, "-v"],
                                    capture_output=True, text=True, env=env)
                 lines = [l for l in r.stdout.splitlines() if "[violation]" in l or "[undecided]" in l or "checker failure" in l]
                 hit = [l for l in lines if m["rule"] in l]
